@@ -15,7 +15,8 @@ Inductive node :=
 | NBoolOp (vals : list node)
 | NBinOp (known_op : bool) (l r : node)        (* known_op: the operator is a key of AST_OPERATORS *)
 | NUnary (known_op : bool) (operand : node)
-| NCompare (lft : node) (comps : list node)   (* all comparison operators are keys of AST_COMPARATORS *)
+| NCompare (lft : node) (comps : list (bool * node))   (* per link: is it `in`/`not in`?, the comparator; all comparison
+                                                          operators are keys of AST_COMPARATORS *)
 | NCall (func : node) (args : list node) (kwargs : list (string * node))
 | NGen (elt : node) (gens : list (string * node * list node))   (* (target variable, iter, ifs) per `for` *)
 | NOther.                                      (* IfExp, Subscript, Lambda, Dict, Set, ListComp, JoinedStr, Starred ... *)
@@ -195,6 +196,14 @@ Fixpoint level (elt : node) (stop_on : obj -> bool) (gens : list (string * node 
       end
   end.
 
+(* iterating a generator expression object until [stop_on] holds for a yielded value: first the "overwrites existing
+   variable" test of generator_expr, then the nested loops *)
+Definition consume (elt : node) (gens : list (string * node * list node)) (stop_on : obj -> bool) (s0 : st)
+  : option err * bool * st :=
+  if existsb (fun g => match ns_get (fst s0) (fst (fst g)) with Some _ => true | None => false end) gens
+  then (Some InvalidOperation, true, s0)
+  else level elt stop_on gens s0.
+
 (* callee( args, kwargs ): the call event, what a field_* helper reads, and -- when the callee is any/all over a
    generator expression -- the lazy consumption of that generator *)
 Definition do_call (args : list node) (c : obj) (vs : list obj) (nk : nat) (s : st) : res * st :=
@@ -203,12 +212,10 @@ Definition do_call (args : list node) (c : obj) (vs : list obj) (nk : nat) (s : 
   | OFun cname, [NGen elt gens] =>
       if String.eqb cname "any" || String.eqb cname "all" then
         let stop_on (v : obj) : bool := if String.eqb cname "any" then truthy v else negb (truthy v) in
-        if existsb (fun g => match ns_get (fst s0) (fst (fst g)) with Some _ => true | None => false end) gens
-        then (Err InvalidOperation, s0)
-        else match level elt stop_on gens s0 with
-             | (Some e, _, s1) => (Err e, s1)
-             | (None, _, s1) => (Ok (OCall c vs), s1)
-             end
+        match consume elt gens stop_on s0 with
+        | (Some e, _, s1) => (Err e, s1)
+        | (None, _, s1) => (Ok (OCall c vs), s1)
+        end
       else (Ok (OCall c vs), s0)
   | _, _ => (Ok (OCall c vs), s0)
   end.
@@ -268,15 +275,25 @@ Fixpoint eval (fuel : nat) (s : st) (n : node) {struct fuel} : res * st :=
     | NCompare lft comps =>
         match ev s lft with
         | (Ok a, s1) =>
-            (fix chain (a : obj) (s : st) (cs : list node) (last : obj) : res * st :=
+            (fix chain (a : obj) (s : st) (cs : list (bool * node)) (last : obj) : res * st :=
                match cs with
                | [] => (Ok last, s)
-               | c :: cs' =>
+               | (is_in, c) :: cs' =>
                    match ev s c with
                    | (Ok b, s2) =>
-                       let r := OOp [a; b] in
-                       let s3 := emit s2 (EvOp [a; b]) in
-                       if truthy r then chain b s3 cs' r else (Ok r, s3)
+                       (* `a in <generator expression>`: operator.contains iterates the generator, comparing each
+                          yielded value with a, until one compares equal *)
+                       match (match is_in, c, a with
+                              | true, NGen elt gens, OMissing => (None, false, s2)
+                              | true, NGen elt gens, _ => consume ev elt gens (fun v => truthy (OOp [v; a])) s2
+                              | _, _, _ => (None, false, s2)
+                              end) with
+                       | (Some e, _, s2') => (Err e, s2')
+                       | (None, _, s2') =>
+                           let r := OOp [a; b] in
+                           let s3 := emit s2' (EvOp [a; b]) in
+                           if truthy r then chain b s3 cs' r else (Ok r, s3)
+                       end
                    | r' => r'
                    end
                end) a s1 comps (OConst true)
